@@ -17,5 +17,5 @@ RULE = c05.RULE
 # a predicate artifact) - replaced by the proved guarded form c06_emitted_live_ok_g; c06_no_resend_acked_g / c06_fast_retx_ok_g
 # are the proved guarded forms of the two predicates that stay evaluated unguarded as well (monitored).
 PREDS = ("c06_backoff_ok", "c06_cap_ok", "c06_emitted_live_ok_g", "c06_no_resend_acked", "c06_no_resend_acked_g", "c06_fast_retx_ok",
-         "c06_fast_retx_ok_g", "c06_stable_plen_ok", "c06_joint_ok", "c06_rp_exit_ok")
+         "c06_fast_retx_ok_g", "c06_stable_plen_ok", "c06_stable_plen_ok_p", "c06_joint_ok", "c06_rp_exit_ok")
 COMPONENTS = [dict(c05.component("+".join(PREDS)), name="vsock_c06")]
